@@ -137,7 +137,11 @@ def finish(prop, tier, level, merge, verdict, timer, rule, assumptions,
         common.log('  problem: %s item=%s\n    %s' % (
             p['status'], str(p['item'])[:200],
             p['detail'][-1500:].replace('\n', '\n    ')))
-    if nprob > tolerate_problems * ntot:
+    # only watchdog timeouts (a loaded machine) are tolerated, and only a
+    # few: a worker that crashed or raised is never folded into "held"
+    nhard = sum(n for s, n in merge.status.items()
+                if s not in ('ok', 'timeout'))
+    if nhard or nprob > tolerate_problems * ntot:
         verdict.inconclusive_because(
             '%d of %d work items did not complete (%s)' % (
                 nprob, ntot, merge.status))
